@@ -101,3 +101,27 @@ func TestRegressCycleRefused(t *testing.T) {
 	h.ok("x", "p", edge("t", 60))
 	h.refused("p", "x", edge("t", 70), [][2]string{{"p", "x"}})
 }
+
+// Ids are free text: a node whose id (or whose parent's id) contains a single
+// quote must be readable like any other (the node queries were once built
+// with Sprintf and failed with "SQL logic error: near ...: syntax error").
+func TestRegressQuoteInIDs(t *testing.T) {
+	in := fix.New(t, fix.Opts{ID: "inst"})
+	h := harness{t, in}
+	h.ok("n'6", "inst", edge("group", 10))
+	h.ok("n'6", "", data.Points{{Type: "description", Text: "it's", Time: at(20)}})
+	h.ok("k'OR'1'='1", "n'6", edge("variable", 30))
+	for _, q := range [][3]string{{"inst", "n'6", "n'6"}, {"all", "n'6", "n'6"}, {"n'6", "all", "k'OR'1'='1"}, {"n'6", "k'OR'1'='1", "k'OR'1'='1"}} {
+		ns, err := in.Get(q[0], q[1], false)
+		if err != nil {
+			t.Fatalf("read parent %q id %q: %v", q[0], q[1], err)
+		}
+		if len(ns) != 1 || ns[0].ID != q[2] {
+			t.Fatalf("read parent %q id %q: got %v, expected exactly node %q", q[0], q[1], ns, q[2])
+		}
+	}
+	// a quote in the request must not widen the answer either
+	if ns, err := in.Get("inst", "x'OR'1'='1", false); err != nil || len(ns) != 0 {
+		t.Fatalf("read of an id that does not exist returned %v %v", ns, err)
+	}
+}
